@@ -22,6 +22,27 @@ CHECKS = {
                     "generated input broke losslessness, the DNS-safe alphabet or the length bound."),
         level_note="Trusts Go's bytes.Equal and the harness's own alphabet/length predicates; absence beyond the explored inputs is not shown.",
     ),
+    "C19": dict(
+        pkg="c19",
+        level="exploration",
+        technique="model-based stateful property testing (rapid state machine) over wrapper compositions with counting fakes",
+        rule=("case = generated history: build a DAG of wrappers (Safe/Named x Connection/Stream/Reader/Writer, ReadWriteCloser pair, "
+              "SimulatedConnection, StreamWrappedConnection, BufferedInputConnection; depth <= 4; re-wrapping of already-safe "
+              "wrappers) over counting fakes whose Close succeeds or fails, interleaved with Close/TryClose/LogClose/Closed/"
+              "Read/Write/String on any layer. Invariants after every step: every fake closed <= 1 times and exactly once when "
+              "any enclosing layer was closed; repeated Close returns nil; Closed() true after a close reached the layer and "
+              "false on layers no close touched. non-trivial = history with >= 1 close and (depth >= 2 or a failing underlying "
+              "close or an inner layer closed before its outer layer); distinct = distinct action history"),
+        assumptions=["a raw resource has one owner (wrapping the same raw resource twice independently is outside the property)",
+                     "single-threaded call sequences (the property quantifies over call histories, not races)"],
+        quick=dict(run=".", checks=6000, steps=40, timeout=300),
+        thorough=dict(run=".", checks=120000, steps=60, timeout=1500, shards=8),
+        design_ref="DESIGN.md 2/C19",
+        level_text=("Stateful generated search against a small reference model (close requested per layer, close count per raw "
+                    "resource). A green run means no generated composition and call order closed a resource twice or not at "
+                    "all, returned an error on a repeated Close, or answered Closed() inconsistently."),
+        level_note="Model and fakes are trusted; concurrency of Close calls is not explored.",
+    ),
 }
 
 # commits in /repo that add build-tag guarded hooks (none: the overlay technique needs no source hooks)
